@@ -296,6 +296,51 @@ def run(ctx, progs):
                     cb, ct = closure_ret(prog, eff, env["c"])
                     ok = ct is not None and match(AGG("Result", "Ok", P(3)), ct, {})
                 detail = f"returns `{tstr(others[0])}` / false"
+            if not ok:
+                # the same predicate written `matches!(try_access(..), Ok(count) if count == len)`: literal true / false returns, decided
+                # by the facts on the way to each
+                TA = C("GuestMemory::try_access", P(1), P(3), P(2), CLO("c"))
+                envs = []
+                good = bool(rts)
+                n_true = 0
+                def reads(fs, e_=None):
+                    e_ = e_ if e_ is not None else {}
+                    is_ok = any(r[0] == 'discr' and r[2] == 0 and match(TA, r[1], e_) for r in fs)
+                    is_err = any(r[0] == 'discr' and r[2] == 1 and match(TA, r[1], {}) for r in fs)
+                    eq = any(r[0] == 'cmp' and r[1] == 'Eq' and match(OKP(TA), r[2], {}) and match(P(3), r[3], {}) for r in fs)
+                    ne = any(r[0] == 'cmp' and r[1] == 'Ne' and match(OKP(TA), r[2], {}) and match(P(3), r[3], {}) for r in fs)
+                    other = [r for r in fs if r[0] in ('cmp', 'bool', 'discr') and not any(match(TA, x, {}) for r_ in (r[1:],) for y in r_ if isinstance(y, tuple)
+                                                                                            for x in subterms(unref(y)))]
+                    return is_ok, is_err, eq, ne, other
+                for pos, t in rts:
+                    fs = b.facts_at(pos)
+                    e_ = {}
+                    is_ok, is_err, eq, ne, other = reads(fs, e_)
+                    if t == ('const', 1) and is_ok and eq and not other:
+                        n_true += 1         # true under exactly `Ok(count)` and `count == len`, no further condition
+                        envs.append(e_)
+                    elif t == ('const', 0) and (is_err or (is_ok and ne)):
+                        pass
+                    elif t == ('const', 0) and not fs:
+                        # a join of the `Err` arm and the failed guard: every way in must be one of the two
+                        ways = b.facts_by_pred(pos[0])
+                        for w in ways:
+                            o2, e2, _q2, n2, _x2 = reads(w)
+                            if not (e2 or (o2 and n2)):
+                                good = False
+                        if not ways:
+                            good = False
+                    elif is_ok and match(BIN("Eq", OKP(TA), P(3)), t, e_):
+                        n_true += 1
+                        envs.append(e_)
+                    else:
+                        good = False
+                if good and n_true >= 1:
+                    ok = True
+                    for e_ in envs:
+                        cb, ct = closure_ret(prog, eff, e_["c"]) if "c" in e_ else (None, None)
+                        ok = ok and ct is not None and match(AGG("Result", "Ok", P(3)), ct, {})
+                    detail = f"{len(rts)} literal returns, true exactly where try_access(..) is Ok(count) with count == len"
             ctx.ob("R2.3.check_range", b.key, ok, b.where(), detail + "; required try_access(len, base, |_, count, _, _| Ok(count)) == Ok(len), false otherwise")
         for nm, call in (("get_host_address", "GuestMemoryRegion::get_host_address"), ("get_slice", "GuestMemoryRegion::get_slice")):
             b = prov(prog, GM, nm)
